@@ -217,15 +217,24 @@ func (sn snapshot) written(b built, msg string) string {
 type recHook struct {
 	b     built
 	snaps *[]snapshot
+	other *zap.Logger // when set, the hook logs through it before looking at its entry
+	seen  *[]string   // level|message of the entry as the hook saw it afterwards
 }
 
-func (h recHook) OnWrite(*zapcore.CheckedEntry, []zapcore.Field) {
+func (h recHook) OnWrite(ce *zapcore.CheckedEntry, _ []zapcore.Field) {
+	if h.other != nil {
+		// a hook may log itself (e.g. "shutting down") before it acts on its entry: the entry it
+		// was given must still be the terminal entry afterwards
+		h.other.Info("logged from inside the terminal hook")
+		h.other.Warn("and once more", zap.Int("k", 1))
+		*h.seen = append(*h.seen, fmt.Sprintf("%d|%s", ce.Level, ce.Message))
+	}
 	*h.snaps = append(*h.snaps, snap(h.b))
 	runtime.Goexit()
 }
 
 // hook configurations
-var hookKinds = []string{"unset", "nil", "WriteThenNoop", "WriteThenGoexit", "WriteThenPanic", "custom"}
+var hookKinds = []string{"unset", "nil", "WriteThenNoop", "WriteThenGoexit", "WriteThenPanic", "custom", "custom-logs-first"}
 
 // outcome of running the log call in its own goroutine
 type outcome struct {
@@ -303,6 +312,7 @@ func inProcess(r *ev.Run) {
 		}
 		b := buildCore(c.core, func(s *rec.Sink) zapcore.WriteSyncer { return s })
 		var snaps []snapshot
+		var seenByHook []string
 		opts := []zap.Option{zap.ErrorOutput(zapcore.AddSync(&rec.Sink{}))}
 		if c.dev {
 			opts = append(opts, zap.Development())
@@ -318,7 +328,10 @@ func inProcess(r *ev.Run) {
 		case "WriteThenPanic":
 			hk = zapcore.WriteThenPanic
 		case "custom":
-			hk = recHook{b, &snaps}
+			hk = recHook{b: b, snaps: &snaps}
+		case "custom-logs-first":
+			oc, _ := observer.New(zapcore.DebugLevel)
+			hk = recHook{b: b, snaps: &snaps, other: zap.New(oc), seen: &seenByHook}
 		}
 		if hk != nil {
 			opts = append(opts, zap.WithPanicHook(hk), zap.WithFatalHook(hk))
@@ -371,7 +384,7 @@ func inProcess(r *ev.Run) {
 		switch c.hook {
 		case "WriteThenGoexit":
 			want = "goexit"
-		case "custom":
+		case "custom", "custom-logs-first":
 			want = "custom"
 		}
 		switch want {
@@ -393,6 +406,20 @@ func inProcess(r *ev.Run) {
 			if len(snaps) != 1 {
 				bad("wrong-action", "the custom hook ran %d times, want exactly once", len(snaps))
 				continue
+			}
+			if c.hook == "custom-logs-first" {
+				wantSeen := fmt.Sprintf("%d|%s", c.lvl, strings.TrimSpace(msg))
+				gotSeen := ""
+				if len(seenByHook) == 1 {
+					gotSeen = seenByHook[0]
+					if i := strings.IndexByte(gotSeen, '|'); i >= 0 {
+						gotSeen = gotSeen[:i+1] + strings.TrimSpace(gotSeen[i+1:])
+					}
+				}
+				if gotSeen != wantSeen {
+					bad("hook-entry-changed", "after logging through another logger the terminal hook finds its entry changed: level|message %q, want %q", clipS(gotSeen), clipS(wantSeen))
+					continue
+				}
 			}
 		}
 		if b.enabled {
